@@ -116,7 +116,7 @@ def rule_cb2(A: Analysis, rep):
                 ok = ok and init is not None and norm(init) == "[]"
     rep.check(ok, "CB2", "each dependency paired with its own selected output, in order, dropping only None", call,
               "(dep id, that dependency's get_output_path(ctx)) for every element of task.deps", det)
-    kws = {k.arg: norm(k.value) for k in call.keywords}
+    kws = {k: norm(v) for k, v in A.kwmap(call).items()}
     rep.check(kws.get("identifier") == "%s.task.identifier" % F.lt and kws.get("task") == "%s.task" % F.lt, "CB2", "combine op carries its task", call, "", "CombineOutputs(%s)" % kws, deep=False)
     op = A.kw(call, "output_path")
     pd = A.preceding_def(cn.ast, op.id) if isinstance(op, ast.Name) else None
